@@ -55,7 +55,7 @@ static void run_cfg(Report & R, size_t B)
             size_t lin = 0;
             for_each_coord<N>(ext, [&](const std::array<size_t, N> & c) {
                 auto & cell = sv.at(to_cov<I, N>(c));
-                for (size_t j = 0; j < M; ++j) cell[j] = static_cast<T>(1 + j + 8 * lin);
+                for (size_t j = 0; j < M; ++j) cell[j] = static_cast<T>(1.1 + double(j) + 8.3 * double(lin));
                 ++lin;
             });
         }
@@ -87,7 +87,7 @@ static void run_cfg(Report & R, size_t B)
                     if (seen[g_last_idx]) R.viol("alias:" + kcfg, "flat index " + std::to_string(g_last_idx) + " is shared by two coordinates", cc);
                     seen[g_last_idx] = 1;
                     for (size_t j = 0; j < M; ++j)
-                        if (cell[j] != static_cast<T>(1 + j + 8 * lin)) R.viol("convvalue:" + kcfg, "converted field holds a different value", cc);
+                        if (cell[j] != static_cast<T>(1.1 + double(j) + 8.3 * double(lin))) R.viol("convvalue:" + kcfg, "converted field holds a different value", cc);
                 }
                 ++lin;
             });
@@ -116,7 +116,7 @@ static void run_cfg(Report & R, size_t B)
                         bad = true;
                     }
                     seen[g_last_idx] = 1;
-                    for (size_t j = 0; j < M; ++j) cell[j] = static_cast<T>(3 + j + 8 * lin);
+                    for (size_t j = 0; j < M; ++j) cell[j] = static_cast<T>(3.1 + double(j) + 8.3 * double(lin));
                 }
                 ++lin;
             });
@@ -125,7 +125,7 @@ static void run_cfg(Report & R, size_t B)
                 for_each_coord<N>(ext, [&](const std::array<size_t, N> & c) {
                     auto & cell = v.at(to_cov<I, N>(c));
                     for (size_t j = 0; j < M; ++j)
-                        if (cell[j] != static_cast<T>(3 + j + 8 * lin)) R.viol("readback:" + kcfg, "value read back differs from value written", cas + "/c" + vec_str(c, N));
+                        if (cell[j] != static_cast<T>(3.1 + double(j) + 8.3 * double(lin))) R.viol("readback:" + kcfg, "value read back differs from value written", cas + "/c" + vec_str(c, N));
                     ++lin;
                 });
             g_access_hook = nullptr;
@@ -169,6 +169,48 @@ static void run_cfg(Report & R, size_t B)
     R.counters["configurations"] += 1;
 }
 
+// beyond the exhaustive bound: a deterministic set of large extent vectors (power-of-two boundaries, strongly non-square),
+// index map only (probe backend): every coordinate in bounds and no two coordinates on one cell
+template <class L, size_t N>
+static void large_pass(Report & R)
+{
+    using In = cv::vector_d<std::size_t, N>;
+    using DstP = typename L::template apply<In, probe_array<cv::float1>>;
+    const std::string kcfg = std::string(L::name) + ":N" + std::to_string(N);
+    std::vector<std::array<size_t, N>> exts;
+    if constexpr (N == 1) exts = {{65535}, {65536}, {65537}, {(size_t(1) << 20) + 1}};
+    if constexpr (N == 2) exts = {{257, 3}, {3, 1025}, {1025, 1025}, {1, 4097}, {513, 255}};
+    if constexpr (N == 3) exts = {{65, 2, 2}, {3, 2, 129}, {33, 65, 17}};
+    if constexpr (N == 4) exts = {{17, 2, 1, 3}, {2, 2, 2, 33}, {9, 17, 5, 3}};
+    for (auto & ext : exts) {
+        const std::string cas = std::string(L::name) + "/N" + std::to_string(N) + "/large/ext" + vec_str(ext, N);
+        if (!only_case.empty() && only_case.find(cas) != 0) continue;
+        const size_t doc = L::template doc_len<N>(ext);
+        covfie::field<DstP> f(covfie::make_parameter_pack(typename DstP::configuration_t(to_cov<size_t, N>(ext)), typename DstP::backend_t::configuration_t{doc}));
+        covfie::field_view<DstP> v(f);
+        std::vector<bool> seen(doc, false);
+        g_access_hook = hook;
+        bool stop = false;
+        for_each_coord<N>(ext, [&](const std::array<size_t, N> & c) {
+            if (stop) return;
+            v.at(to_cov<size_t, N>(c));
+            ++R.evaluations;
+            if (g_last_idx >= doc) {
+                R.viol("oob:" + kcfg, "flat index " + std::to_string(g_last_idx) + " >= documented length " + std::to_string(doc), cas + "/c" + vec_str(c, N));
+                stop = true;
+            } else if (seen[g_last_idx]) {
+                R.viol("alias:" + kcfg, "flat index " + std::to_string(g_last_idx) + " is shared by two coordinates", cas + "/c" + vec_str(c, N));
+                stop = true;
+            } else {
+                seen[g_last_idx] = true;
+            }
+        });
+        g_access_hook = nullptr;
+        ++R.nontrivial;
+        R.counters["large_extent_vectors"]++;
+    }
+}
+
 template <class L, size_t N, size_t M, class T>
 static void run_I(Report & R, size_t B)
 {
@@ -192,6 +234,7 @@ int main(int argc, char ** argv)
     Report R(std::string(VP_LAYER::name) + "/N" + std::to_string(VP_N));
     run_T<VP_LAYER, VP_N, 1>(R, B);
     run_T<VP_LAYER, VP_N, 3>(R, B);
+    large_pass<VP_LAYER, VP_N>(R);
 #ifndef VP_QUICK
     run_T<VP_LAYER, VP_N, 2>(R, B);
     run_T<VP_LAYER, VP_N, 4>(R, B);
